@@ -42,6 +42,32 @@ fn one_header(
     if sink != emitted {
         return Err(("emitters-disagree", format!("slice emitter {} vs Write emitter {}", hex(&emitted), hex(&sink))));
     }
+    // ... and through a writer that takes one byte per call (a socket buffer that is nearly full)
+    {
+        struct OneByte(Vec<u8>);
+        impl std::io::Write for OneByte {
+            fn write(&mut self, b: &[u8]) -> std::io::Result<usize> {
+                if b.is_empty() {
+                    return Ok(0);
+                }
+                self.0.push(b[0]);
+                Ok(1)
+            }
+            fn flush(&mut self) -> std::io::Result<()> {
+                Ok(())
+            }
+        }
+        let mut se_t = se_w.clone();
+        let mut t = OneByte(vec![]);
+        let mut probe = se_w.clone();
+        let next_typed = catch(|| probe.encrypt_server_header(size, opcode).to_vec()).map_err(|m| ("emit-panic", m))?;
+        catch(|| se_t.write_encrypted_server_header(&mut t, size, opcode))
+            .map_err(|m| ("emit-write-panic", m))?
+            .map_err(|e| ("emit-write-error", format!("with a writer that accepts one byte per call: {e}")))?;
+        if t.0 != next_typed {
+            return Err(("emitters-disagree", format!("through a writer that accepts one byte per call the next header goes out as {}, the slice emitter gives {}", hex(&t.0), hex(&next_typed))));
+        }
+    }
     if se_w != *se && !ciphers::same_future(&se_w, se, 64, |o, d| o.encrypt(d)) {
         return Err(("emitters-disagree", "after slice vs Write emission the two encrypters no longer produce the same stream".into()));
     }
